@@ -17,20 +17,20 @@ var models map[string]model
 
 func init() {
 	models = map[string]model{
-		"bytes.HasPrefix":   mHasPrefix,
-		"bytes.Equal":       mEqual,
-		"bytes.Index":       mIndex,
-		"bytes.IndexByte":   mIndexByte,
-		"bytes.Contains":    mContains,
-		"bytes.Cut":         mCut,
-		"bytes.Trim":        mTrim,
-		"bytes.TrimSpace":   mTrimSpace,
-		"strings.HasPrefix": mHasPrefix,
-		"strings.Index":     mIndex,
-		"strings.IndexRune": mIndexRune,
-		"strings.IndexAny":  mIndexAny,
-		"strings.TrimLeft":  mTrimLeft,
-		"strings.ToLower":   mToLower,
+		"bytes.HasPrefix":                       mHasPrefix,
+		"bytes.Equal":                           mEqual,
+		"bytes.Index":                           mIndex,
+		"bytes.IndexByte":                       mIndexByte,
+		"bytes.Contains":                        mContains,
+		"bytes.Cut":                             mCut,
+		"bytes.Trim":                            mTrim,
+		"bytes.TrimSpace":                       mTrimSpace,
+		"strings.HasPrefix":                     mHasPrefix,
+		"strings.Index":                         mIndex,
+		"strings.IndexRune":                     mIndexRune,
+		"strings.IndexAny":                      mIndexAny,
+		"strings.TrimLeft":                      mTrimLeft,
+		"strings.ToLower":                       mToLower,
 		"(encoding/binary.littleEndian).Uint32": func(f *frame, st *State, ins *ssa.Call, a []Val) Val { return mUint(f, st, ins, a, 4, false) },
 		"(encoding/binary.littleEndian).Uint16": func(f *frame, st *State, ins *ssa.Call, a []Val) Val { return mUint(f, st, ins, a, 2, false) },
 		"(encoding/binary.bigEndian).Uint32":    func(f *frame, st *State, ins *ssa.Call, a []Val) Val { return mUint(f, st, ins, a, 4, true) },
@@ -43,14 +43,14 @@ func init() {
 			s := a[0].(VSlice)
 			return VBool{app(f.ex.validUTF8Fn(), st.mem[s.R][0], s.Off, s.Len)}
 		},
-		"(*sync.Pool).Get":         mPoolGet,
-		"(*sync.Pool).Put":         mPoolPut,
-		"(*sync.RWMutex).RLock":    func(f *frame, st *State, ins *ssa.Call, a []Val) Val { return f.lockOp(st, ins, "none", "R") },
-		"(*sync.RWMutex).RUnlock":  func(f *frame, st *State, ins *ssa.Call, a []Val) Val { return f.lockOp(st, ins, "R", "none") },
-		"(*sync.RWMutex).Lock":     func(f *frame, st *State, ins *ssa.Call, a []Val) Val { return f.lockOp(st, ins, "none", "W") },
-		"(*sync.RWMutex).Unlock":   func(f *frame, st *State, ins *ssa.Call, a []Val) Val { return f.lockOp(st, ins, "W", "none") },
-		"sync/atomic.LoadUint32":   mAtomicLoad,
-		"sync/atomic.StoreUint32":  mAtomicStore,
+		"(*sync.Pool).Get":        mPoolGet,
+		"(*sync.Pool).Put":        mPoolPut,
+		"(*sync.RWMutex).RLock":   func(f *frame, st *State, ins *ssa.Call, a []Val) Val { return f.lockOp(st, ins, "none", "R") },
+		"(*sync.RWMutex).RUnlock": func(f *frame, st *State, ins *ssa.Call, a []Val) Val { return f.lockOp(st, ins, "R", "none") },
+		"(*sync.RWMutex).Lock":    func(f *frame, st *State, ins *ssa.Call, a []Val) Val { return f.lockOp(st, ins, "none", "W") },
+		"(*sync.RWMutex).Unlock":  func(f *frame, st *State, ins *ssa.Call, a []Val) Val { return f.lockOp(st, ins, "W", "none") },
+		"sync/atomic.LoadUint32":  mAtomicLoad,
+		"sync/atomic.StoreUint32": mAtomicStore,
 		"bytes.NewReader": func(f *frame, st *State, ins *ssa.Call, a []Val) Val {
 			return VOpaque{f.ex.decls.fresh("bytesReader", SInt), ins.Type()}
 		},
@@ -124,11 +124,11 @@ func mIndexByte(f *frame, st *State, ins *ssa.Call, args []Val) Val {
 	r := ex.decls.fresh("indexByte", SInt)
 	st.assume(tLe(num(-1), r))
 	st.assume(tLt(r, tIte(tLt(s.Len, "1"), "0", s.Len)))
-	st.assume(tImp(tGe(r, "0"), tEq(tSel(ms, tAdd(s.Off, r)), c)))
+	st.assume(tImp(tGe(r, "0"), tEq(tSel(ms, tIdx(s.Off, r)), c)))
 	if f.quant() {
 		q := "ib_" + r
 		st.assume(tForall(q, tImp(tAnd(tLe("0", q), tOr(tLt(q, r), tAnd(tEq(r, num(-1)), tLt(q, s.Len)))),
-			tNe(tSel(ms, tAdd(s.Off, q)), c))))
+			tNe(tSel(ms, tIdx(s.Off, q)), c))))
 	}
 	return VInt{r}
 }
@@ -174,14 +174,14 @@ func trimModel(f *frame, st *State, s VSlice, ms T, set []byte, left, right bool
 	if set != nil {
 		// ends are not in the cut set (when the result is non-empty)
 		if left {
-			st.assume(tImp(tLt(i, j), tNot(inSet(tSel(ms, tAdd(s.Off, i)), set))))
+			st.assume(tImp(tLt(i, j), tNot(inSet(tSel(ms, tIdx(s.Off, i)), set))))
 		}
 		if right {
-			st.assume(tImp(tLt(i, j), tNot(inSet(tSel(ms, tAdd(s.Off, tSub(j, "1"))), set))))
+			st.assume(tImp(tLt(i, j), tNot(inSet(tSel(ms, tIdx(s.Off, tSub(j, "1"))), set))))
 		}
 		if f.quant() {
 			q := "tr_" + sanitize(i+j)
-			st.assume(tForall(q, tImp(tAnd(tLe("0", q), tLt(q, s.Len), tOr(tLt(q, i), tGe(q, j))), inSet(tSel(ms, tAdd(s.Off, q)), set))))
+			st.assume(tForall(q, tImp(tAnd(tLe("0", q), tLt(q, s.Len), tOr(tLt(q, i), tGe(q, j))), inSet(tSel(ms, tIdx(s.Off, q)), set))))
 		}
 	}
 	return VSlice{R: s.R, Elem: s.Elem, Off: tAdd(s.Off, i), Len: tSub(j, i), Cap: tSub(s.Cap, i), Str: s.Str}
@@ -224,11 +224,11 @@ func mIndexAny(f *frame, st *State, ins *ssa.Call, args []Val) Val {
 	st.assume(tLe(num(-1), r))
 	st.assume(tLt(r, tIte(tLt(s.Len, "1"), "0", s.Len)))
 	if set.HasLit {
-		st.assume(tImp(tGe(r, "0"), inSet(tSel(ms, tAdd(s.Off, r)), set.Lit)))
+		st.assume(tImp(tGe(r, "0"), inSet(tSel(ms, tIdx(s.Off, r)), set.Lit)))
 		if f.quant() {
 			q := "ia_" + r
 			st.assume(tForall(q, tImp(tAnd(tLe("0", q), tOr(tLt(q, r), tAnd(tEq(r, num(-1)), tLt(q, s.Len)))),
-				tNot(inSet(tSel(ms, tAdd(s.Off, q)), set.Lit)))))
+				tNot(inSet(tSel(ms, tIdx(s.Off, q)), set.Lit)))))
 		}
 	}
 	return VInt{r}
@@ -243,10 +243,10 @@ func mToLower(f *frame, st *State, ins *ssa.Call, args []Val) Val {
 	if f.quant() {
 		mr := st.mem[r.R][0]
 		q := "tl_" + sanitize(r.Len)
-		b := tSel(ms, tAdd(s.Off, q))
-		asciiAll := tForall(q+"a", tImp(tAnd(tLe("0", q+"a"), tLt(q+"a", s.Len)), tLt(tSel(ms, tAdd(s.Off, q+"a")), "128")))
+		b := tSel(ms, tIdx(s.Off, q))
+		asciiAll := tForall(q+"a", tImp(tAnd(tLe("0", q+"a"), tLt(q+"a", s.Len)), tLt(tSel(ms, tIdx(s.Off, q+"a")), "128")))
 		st.assume(tImp(asciiAll, tAnd(tEq(r.Len, s.Len), tForall(q, tImp(tAnd(tLe("0", q), tLt(q, s.Len)),
-			tEq(tSel(mr, tAdd(r.Off, q)), tIte(tAnd(tLe("65", b), tLe(b, "90")), tAdd(b, "32"), b)))))))
+			tEq(tSel(mr, tIdx(r.Off, q)), tIte(tAnd(tLe("65", b), tLe(b, "90")), tAdd(b, "32"), b)))))))
 	}
 	return r
 }
@@ -260,7 +260,7 @@ func mUint(f *frame, st *State, ins *ssa.Call, args []Val, n int, big_ bool) Val
 	st.assume(tLe(num(int64(n)), s.Len))
 	res := T("0")
 	for i := 0; i < n; i++ {
-		b := tSel(ms, tAdd(s.Off, num(int64(i))))
+		b := tSel(ms, tIdx(s.Off, num(int64(i))))
 		st.assume(tAnd(tLe("0", b), tLe(b, "255")))
 		sh := uint(8 * i)
 		if big_ {
@@ -345,4 +345,80 @@ func mAtomicStore(f *frame, st *State, ins *ssa.Call, args []Val) Val {
 		f.ex.prog.globalStore(f.ex, st, g.G, args[1])
 	}
 	return VTuple{}
+}
+
+// ---------------------------------------------------------------------------
+// io / os (C05). Contracts from the package documentation.
+
+func (ex *Exec) extGlobal(st *State, pkgPath, name string) Val {
+	for _, sp := range ex.prog.prog.AllPackages() {
+		if sp.Pkg.Path() == pkgPath {
+			if g, ok := sp.Members[name].(*ssa.Global); ok {
+				return ex.prog.globalLoad(ex, st, g)
+			}
+		}
+	}
+	panic("no global " + pkgPath + "." + name)
+}
+
+func errID(v Val) T {
+	switch e := v.(type) {
+	case VIface:
+		return e.ID
+	}
+	return "0"
+}
+
+func init() {
+	models["io.ReadFull"] = func(f *frame, st *State, ins *ssa.Call, a []Val) Val {
+		ex := f.ex
+		buf := a[1].(VSlice)
+		n := ex.decls.fresh("readfull_n", SInt)
+		err := ex.decls.fresh("readfull_err", SInt)
+		eof := errID(ex.extGlobal(st, "io", "EOF"))
+		ueof := errID(ex.extGlobal(st, "io", "ErrUnexpectedEOF"))
+		st.assume(tAnd(tLe("0", n), tLe(n, buf.Len)))
+		st.assume(tLe("0", err))
+		// distinct sentinel values
+		st.assume(tAnd(tNe(eof, "0"), tNe(ueof, "0"), tNe(eof, ueof)))
+		st.assume(tEq(tEq(n, buf.Len), tEq(err, "0")))
+		st.assume(tImp(tEq(err, eof), tEq(n, "0")))
+		st.assume(tImp(tEq(err, ueof), tAnd(tLt("0", n), tLt(n, buf.Len))))
+		if !buf.R.input {
+			st.mem[buf.R] = ex.freshMemLike(st.mem[buf.R], "readfull_buf")
+		}
+		f.readerConsume(st, a[0], n, err)
+		return VTuple{[]Val{VInt{n}, VIface{ID: err}}}
+	}
+	models["io.ReadAll"] = func(f *frame, st *State, ins *ssa.Call, a []Val) Val {
+		ex := f.ex
+		out := ex.freshSlice(st, "readall", types.Typ[types.Uint8], false, false)
+		out.R.fresh = true
+		err := ex.decls.fresh("readall_err", SInt)
+		st.assume(tLe("0", err))
+		f.readerConsume(st, a[0], out.Len, err)
+		return VTuple{[]Val{out, VIface{ID: err}}}
+	}
+	models["os.Open"] = func(f *frame, st *State, ins *ssa.Call, a []Val) Val {
+		ex := f.ex
+		file := ex.decls.fresh("file", SInt)
+		err := ex.decls.fresh("open_err", SInt)
+		st.assume(tAnd(tLe("0", file), tLe("0", err)))
+		st.assume(tEq(tEq(err, "0"), tNot(tEq(file, "0"))))
+		return VTuple{[]Val{VOpaque{file, ins.Type().(*types.Tuple).At(0).Type()}, VIface{ID: err}}}
+	}
+	models["(*os.File).Close"] = func(f *frame, st *State, ins *ssa.Call, a []Val) Val {
+		return VIface{ID: f.ex.decls.fresh("close_err", SInt)}
+	}
+}
+
+// readerConsume records in ghost state how many bytes were taken from a reader (C05).
+func (f *frame) readerConsume(st *State, r Val, n T, err T) {
+	used := T("0")
+	if g, ok := st.ghost["reader_used"]; ok {
+		used = g.(VInt).T
+	}
+	st.ghost["reader_used"] = VInt{tAdd(used, n)}
+	st.ghost["reader_err"] = VInt{err}
+	st.ghost["reader_n"] = VInt{n}
 }
